@@ -44,7 +44,12 @@ def rules(model: Model, tier: str) -> List[RuleResult]:
     _index_space(model, X)
     from ..rules import substitution as _subst
     _sub = _subst.rules(model, PROP, tier)
-    return [V, S, H, R3, K, G, X, *_sub]
+    # _Jac re-assembles its argument list with the TensorNonTensorSeparator after every substitution of the parameters: the scatter must be
+    # the inverse of the split (shared with C04 / C08 / C13 / C16)
+    from ..rules import autograd as _ac17
+    SEP = RuleResult(PROP, "AC-SEP", "TensorNonTensorSeparator.reconstruct_params scatters both groups back to their recorded positions (inverse of the split)", min_instances=4)
+    _ac17.separator_inverse(model, SEP)
+    return [V, S, H, R3, K, G, X, *_sub, SEP]
 
 
 def _validation(model: Model, V: RuleResult):
